@@ -230,9 +230,20 @@ def rule_memoisation(ctx: Ctx, out: Collector) -> None:
                 if last in ('lru_cache', 'cache', 'cached'):
                     cons = f'{unit.module.name}::{unit.qualname}::@{last}'
                     takes_state = any(a in ('node', 'dag', 'ctx', 'self') for a in unit.params())
-                    if takes_state:
+                    # does the cached function create the object a node body runs on?
+                    env_ = FuncEnv.of(p, unit)
+                    makes_instance = any(isinstance(c_, ast.Call) and any(t_[0] == 'func' and t_[1].name == 'get_instance'
+                                                                          for t_ in env_.resolve_call(c_)) for c_ in env_.own_nodes())
+                    if takes_state or makes_instance:
+                        extra = ''
+                        props = {'C07', 'C08'}
+                        if makes_instance:
+                            props |= {'C17'}
+                            extra = (': the node object is created once and reused by every later execution in the coroutine, inline and '
+                                     'thread modes, while the process mode runs the body on a pickled copy - what a body keeps on self '
+                                     'survives in some execution modes only, so the outcome depends on the mode')
                         out.bad('SH-5', cons, p.loc(unit, dec), f'@{last} on a function of the run path caches objects across '
-                                                                f'runs (node instances / dag / context)', props={'C07', 'C08'})
+                                                                f'runs (node instances / dag / context){extra}', props=props)
     # SH-9: what a memoised method returns must be a function of the immutable description: it reads no run state
     storage = ctx.storage_class()
     for c in p.mro(mgr):
